@@ -230,6 +230,38 @@ def main():
             for v in st.get("violations") or []:
                 violations.append((v["class"], v["replay"], v["msg"]))
 
+    # regression tier: saved minimal failing cases of repaired defects, re-run without rapid
+    regdir = os.path.join(ROOT, "regress", pid)
+    regress_run = 0
+    if os.path.isdir(regdir):
+        rprocs = []
+        for fn in sorted(os.listdir(regdir)):
+            if not fn.endswith(".json"):
+                continue
+            path = os.path.join(regdir, fn)
+            for r in cfg["runs"]:
+                if "fuzz" in r or bool(r["race"]) not in bins:
+                    continue
+                e = dict(ENV, VERIF_TIER=tier, VERIF_SEED=str(seed))
+                e.pop("VERIF_OUT", None)
+                e.update(r["env"])
+                p = subprocess.Popen([bins[bool(r["race"])], "-test.run", r["run"], "-test.timeout", "300s", "-replay", path],
+                                     cwd=os.path.join(ROOT, "checks", cfg["pkg"]), env=e, stdout=subprocess.PIPE, stderr=subprocess.STDOUT, text=True)
+                rprocs.append((path, p))
+                break
+            if len(rprocs) >= 32:
+                for path_, p_ in rprocs:
+                    out_, _ = p_.communicate()
+                    regress_run += 1
+                    if "REPLAY-FAIL" in out_:
+                        violations.append((pid + "/regression", path_, "saved regression case fails again: " + out_[out_.find("REPLAY-FAIL"):][:400]))
+                rprocs = []
+        for path_, p_ in rprocs:
+            out_, _ = p_.communicate()
+            regress_run += 1
+            if "REPLAY-FAIL" in out_:
+                violations.append((pid + "/regression", path_, "saved regression case fails again: " + out_[out_.find("REPLAY-FAIL"):][:400]))
+
     # native fuzz campaigns (thorough only)
     for r in cfg["runs"]:
         if "fuzz" not in r or tier not in r["tiers"]:
@@ -341,6 +373,7 @@ def main():
             "known_finding_hits": known_hits,
             "processes": len(stats),
             "native_fuzz_execs": fuzz_execs,
+            "regression_cases_replayed": regress_run,
             "notes": notes[:40],
         },
         "assumptions": assumptions,
